@@ -1,6 +1,6 @@
 (** C20 - file interception preserves file bytes and honours the size limit.  Statements only. *)
-From Coq Require Import QArith ZArith NArith List Bool.
-From Playback Require Import Base.Str Values.PyVal Values.Codec
+From Coq Require Import QArith ZArith NArith List Bool Lia.
+From Playback Require Import Base.Str Values.PyVal Values.Codec Values.Heap
      Files.Base64 Files.Base64Facts Files.FileIntercept Files.FileFacts.
 Open Scope list_scope.
 
@@ -53,7 +53,11 @@ Proof. exact get_path_passes. Qed.
 Print Assumptions C20_path_found.
 
 (** ---- round trip: record -> any cassette -> replay ----
-    [qp]/[qp_dec]: jsonpickle's coding of bytes inside the stored JSON (model A's oracle).
+    [qp]/[qp_dec]: jsonpickle's coding of bytes inside the stored JSON (model A's oracle).  Premise (wp-audit:
+    restated, weaker than before): decoding inverts encoding on BYTE strings (elements < 256).  The earlier premise
+    asked this of every [list N], which [Codec.qp_simple] meets with the decoder [JsonParse.qp_dec_simple] but not
+    with the heap model's [Heap.qp_dec_simple]; only a base64 text and the placeholder travel here, so bytes are
+    all that is needed.  See NonVacuity.qp_premise_quoted_printable.
     [fsize]/[fread]/[writable]: the file system.  The size reported by getsize need not even equal
     the number of bytes read (a file growing in between): whatever was read is what comes back. *)
 
@@ -63,7 +67,7 @@ Print Assumptions C20_path_found.
     path of the REPLAYED call holds exactly b ([fs_set]: [C20_fs_after_restore]), every other path is
     untouched, that path is returned; the only file opened for reading is the recorded one *)
 Theorem C20_file_roundtrip :
-  forall (qp : list N -> str) (qp_dec : str -> list N), (forall b, qp_dec (qp b) = b) ->
+  forall (qp : list N -> str) (qp_dec : str -> list N), (forall b, bytes_ok b = true -> qp_dec (qp b) = b) ->
   forall fsize fread writable h args_rec kw_rec args_play kw_play p_rec p_play b (fs_play : fstate),
     passes_path h args_rec kw_rec p_rec -> passes_path h args_play kw_play p_play ->
     str_ok p_rec = true -> within_limit h fsize p_rec -> fread p_rec = Ans b -> bytes_ok b = true ->
@@ -95,7 +99,7 @@ Print Assumptions C20_truncation_needed.
     undecodable ones in between, any initial state: the path holds exactly the bytes of the LAST one,
     and no other path is touched; replaying twice is the same as replaying once *)
 Theorem C20_replay_sequence :
-  forall (qp : list N -> str) (qp_dec : str -> list N), (forall b, qp_dec (qp b) = b) ->
+  forall (qp : list N -> str) (qp_dec : str -> list N), (forall b, bytes_ok b = true -> qp_dec (qp b) = b) ->
   forall writable h recs args kwargs fs p p_rec b v',
     passes_path h args kwargs p -> writable p = true -> str_ok p_rec = true -> bytes_ok b = true ->
     cassette_trip qp qp_dec (serialize_file b p_rec) = Some v' ->
@@ -117,7 +121,7 @@ Print Assumptions C20_replay_twice.
 
 (** output handler: the holder restored from the stored recording has content b *)
 Theorem C20_file_roundtrip_output :
-  forall (qp : list N -> str) (qp_dec : str -> list N), (forall b, qp_dec (qp b) = b) ->
+  forall (qp : list N -> str) (qp_dec : str -> list N), (forall b, bytes_ok b = true -> qp_dec (qp b) = b) ->
   forall fsize fread h args kwargs p b,
     passes_path h args kwargs p -> str_ok p = true -> within_limit h fsize p -> fread p = Ans b ->
     bytes_ok b = true ->
@@ -127,7 +131,7 @@ Print Assumptions C20_file_roundtrip_output.
 
 (** in particular a file whose CONTENT is the placeholder text comes back as a file, not as "above limit" *)
 Theorem C20_file_roundtrip_placeholder_content :
-  forall (qp : list N -> str) (qp_dec : str -> list N), (forall b, qp_dec (qp b) = b) ->
+  forall (qp : list N -> str) (qp_dec : str -> list N), (forall b, bytes_ok b = true -> qp_dec (qp b) = b) ->
   forall fsize fread writable h args_rec kw_rec args_play kw_play p_rec p_play (fs_play : fstate),
     passes_path h args_rec kw_rec p_rec -> passes_path h args_play kw_play p_play ->
     str_ok p_rec = true -> within_limit h fsize p_rec -> fread p_rec = Ans PLACEHOLDER ->
@@ -166,7 +170,7 @@ Print Assumptions C20_limit_content_not_consulted.
 
 (** through the cassette: an above-limit input is represented by the placeholder, nothing was read *)
 Theorem C20_limit_honoured_trip :
-  forall (qp : list N -> str) (qp_dec : str -> list N), (forall b, qp_dec (qp b) = b) ->
+  forall (qp : list N -> str) (qp_dec : str -> list N), (forall b, bytes_ok b = true -> qp_dec (qp b) = b) ->
   forall fsize fread writable h args_rec kw_rec args_play kw_play p_rec p_play (fs_play : fstate),
     passes_path h args_rec kw_rec p_rec -> passes_path h args_play kw_play p_play ->
     str_ok p_rec = true -> beyond_limit h fsize p_rec -> writable p_play = true ->
@@ -177,7 +181,7 @@ Proof. exact input_above_limit. Qed.
 Print Assumptions C20_limit_honoured_trip.
 
 Theorem C20_limit_honoured_output :
-  forall (qp : list N -> str) (qp_dec : str -> list N), (forall b, qp_dec (qp b) = b) ->
+  forall (qp : list N -> str) (qp_dec : str -> list N), (forall b, bytes_ok b = true -> qp_dec (qp b) = b) ->
   forall fsize fread h args kwargs p,
     passes_path h args kwargs p -> str_ok p = true -> beyond_limit h fsize p ->
     output_trip h fsize fread qp qp_dec args kwargs = (Replayed (Ans (Holder PLACEHOLDER (VStr p))), []).
@@ -218,6 +222,38 @@ Print Assumptions C20_env_limit_boundary.
 (** ---- non-vacuity: concrete states meeting every hypothesis ---- *)
 Module NonVacuity.
   Definition qp_id (b : list N) : str := b.
+  Example qp_premise_identity : forall b, bytes_ok b = true -> qp_id (qp_id b) = b.
+  Proof. reflexivity. Qed.
+
+  (** ... and by the quoted-printable pair of the heap model (C11), which does NOT invert on arbitrary [list N] *)
+  Definition qp_byte_ok (x : N) : bool :=
+    match qp_byte x with
+    | [c] => negb (c =? 61)%N && (c =? x)%N
+    | [e; a; b] => (e =? 61)%N && (unhex a * 16 + unhex b =? x)%N
+    | _ => false
+    end.
+  Example qp_bytes_sweep : forallb qp_byte_ok (map N.of_nat (seq 0 256)) = true.
+  Proof. vm_compute. reflexivity. Qed.
+  Example qp_byte_dec x rest : (x < 256)%N -> Heap.qp_dec_simple (qp_byte x ++ rest) = x :: Heap.qp_dec_simple rest.
+  Proof.
+    intros L. pose proof qp_bytes_sweep as S. rewrite forallb_forall in S.
+    assert (I : In x (map N.of_nat (seq 0 256))).
+    { apply in_map_iff. exists (N.to_nat x). split; [apply N2Nat.id|]. apply in_seq. lia. }
+    specialize (S x I). unfold qp_byte_ok in S. destruct (qp_byte x) as [|c [|a [|b [|? ?]]]]; try discriminate.
+    - apply andb_prop in S. destruct S as [S1 S2]. apply N.eqb_eq in S2. subst c. cbn [app qp_dec_simple].
+      apply negb_true_iff in S1. rewrite S1. reflexivity.
+    - apply andb_prop in S. destruct S as [S1 S2]. apply N.eqb_eq in S1, S2. subst c. cbn [app qp_dec_simple].
+      change (61 =? 61)%N with true. cbv iota. rewrite S2. reflexivity.
+  Qed.
+  Example qp_premise_quoted_printable :
+    (forall b, bytes_ok b = true -> Heap.qp_dec_simple (qp_simple b) = b) /\ Heap.qp_dec_simple (qp_simple [256%N]) <> [256%N].
+  Proof.
+    split; [|vm_compute; discriminate].
+    induction b as [|x b IH]; intros Hb; [reflexivity|].
+    apply bytes_ok_cons in Hb. destruct Hb as [Hx Hb]. unfold qp_simple. cbn [flat_map].
+    rewrite (qp_byte_dec x _ Hx). f_equal. apply IH. exact Hb.
+  Qed.
+
   Definition h : handler := Handler 1 (U"path") (Some (1 # 1024)%Q).            (* limit 1024 bytes *)
   Definition content : list N := [0; 255; 10; 13; 10; 32; 61; 200]%N ++ PLACEHOLDER.
   Definition big : list N := repeat 7%N 1025.
